@@ -83,6 +83,8 @@ struct Data {
     q: Array2<f64>,
     qlat: Array2<f64>,
     texts: Array1<String>,
+    /// documents over fixed-width tokens: several new words per document, many equal document frequencies
+    tie_texts: Array1<String>,
     nclass: usize,
 }
 
@@ -195,7 +197,17 @@ fn make_data(seed: u64, thorough: bool) -> Data {
             })
             .collect(),
     );
-    Data { blobs, small, lat, lat_y, lat_w, counts, rx, ry, ry2, rb, rc, q, qlat, texts, nclass }
+    let ntie = 4 + r.below(6);
+    let nvoc = 5 + r.below(5);
+    let tie_texts = Array1::from_vec(
+        (0..ntie)
+            .map(|_| {
+                let len = 2 + r.below(5);
+                (0..len).map(|_| format!("w{:02}", r.below(nvoc))).collect::<Vec<_>>().join(" ")
+            })
+            .collect(),
+    );
+    Data { blobs, small, lat, lat_y, lat_w, counts, rx, ry, ry2, rb, rc, q, qlat, texts, tie_texts, nclass }
 }
 
 // ------------------------------------------------------------------------------------------------
@@ -571,6 +583,9 @@ fn battery() -> Vec<Item> {
         Item { name: "vectorizers", parallel: false, f: it_countvec },
         Item { name: "dataset_utils", parallel: false, f: it_dataset },
     ]
+    .into_iter()
+    .chain(more::items())
+    .collect()
 }
 
 fn data_seeds(seed: u64, thorough: bool) -> Vec<u64> {
@@ -674,7 +689,9 @@ fn estimator_runs(em: &mut Em, seed: u64) {
             let key = format!("{}@{}", item.name, ds);
             let class = format!("est={}", item.name);
             let op = format!("#run est={} data={} tier={}", item.name, ds, if thorough { "thorough" } else { "quick" });
-            let pools: &[usize] = if item.parallel || thorough { &pools_all } else { &pools_few };
+            // every item under every pool size, in both tiers (a loop parallelised tomorrow is not marked `parallel` today)
+            let _ = (&pools_few, item.parallel);
+            let pools: &[usize] = &pools_all;
             let children: Vec<Option<Vec<(String, String)>>> = child_digests.iter().map(|c| c.get(&key).cloned()).collect();
             em.count(&format!("est:{}", item.name));
             let wanted = em.only.map(|o| o == em.idx).unwrap_or(true);
@@ -684,6 +701,10 @@ fn estimator_runs(em: &mut Em, seed: u64) {
             }
             if wanted && base.iter().any(|x| x.0.ends_with("error")) {
                 em.count(&format!("est_fit_error:{}", item.name));
+            }
+            // coverage floor: learned quantities actually compared (sections that are neither a panic nor an error)
+            if wanted {
+                em.count_n(&format!("est_sections:{}", item.name), base.iter().filter(|x| x.0 != "panic" && !x.0.ends_with("error")).count() as u64);
             }
             em.case(op, |ctx| {
                 // a panic / fit error is not a determinism failure (it must merely be the same on every run);
@@ -1089,5 +1110,6 @@ pub fn run(em: &mut Em, rng: &mut Rng) {
     hier_cases(em, rng);
     rng_clone_cases(em, rng);
     more::vocab_cases(em, rng);
+    more::rng_clone_more(em, rng);
     estimator_runs(em, seed);
 }
